@@ -4,7 +4,7 @@ From Coq Require Import Ascii String.
 From Coq Require Import List ZArith NArith Bool Lia.
 From Coq.Strings Require Import Byte.
 From OgRek Require Import Base Utf8 GoStrconv PyQuote Float Value PyEq Dict Reader Decoder.
-From OgRek Require Import BaseFacts ReaderFacts CodecFacts DecoderFacts.
+From OgRek Require Import BaseFacts ReaderFacts CodecFacts DecoderFacts ParseFloatFacts PyEqFacts DictFacts KeyFacts.
 Import ListNotations.
 Open Scope N_scope.
 
@@ -12,7 +12,8 @@ Open Scope N_scope.
 
 Fixpoint wt (cfg : dconfig) (v : val) : bool :=
   match v with
-  | VNone | VBool _ | VFloat _ | VStr _ | VBytes _ | VBArr _ | VClass _ _ | VBig _ _ => true
+  | VNone | VBool _ | VStr _ | VBytes _ | VBArr _ | VClass _ _ | VBig _ _ => true
+  | VFloat f => wfb f                             (* a float64 bit pattern *)
   | VUser _ => match c_load cfg with Some _ => true | None => false end
   | VInt z => in_int64 z
   | VBStr _ => c_strict cfg                       (* ByteString only with StrictUnicode *)
@@ -27,8 +28,10 @@ Fixpoint wt (cfg : dconfig) (v : val) : bool :=
 
 Definition item_ok (cfg : dconfig) (v : val) : Prop := is_mark v = true \/ wt cfg v = true.
 Definition entry_ok (cfg : dconfig) (kv : val * val) : Prop := wt cfg (fst kv) = true /\ wt cfg (snd kv) = true.
+(* an object holds documented values, and its keys are pairwise unequal: under Go's == in a builtin
+   map, under Python's == (and each a hashable key) in a Dict *)
 Definition obj_ok (cfg : dconfig) (o : hobj) : Prop :=
-  match o with HMap es | HDict es => Forall (entry_ok cfg) es end.
+  match o with HMap es | HDict es => Forall (entry_ok cfg) es end /\ obj_keys o.
 
 Record state_ok (cfg : dconfig) (st : dstate) : Prop := {
   so_stack : Forall (item_ok cfg) (d_stack st);
@@ -179,6 +182,27 @@ Proof.
   - apply Forall_app. split; [exact D|]. constructor; [split; assumption|constructor].
 Qed.
 
+Lemma map_opt_hash_all : forall l ps, map_opt go_hash l = Some ps -> Forall (fun x => hashable x = true) l.
+Proof.
+  induction l as [|x t IH]; intros ps H; [constructor|]. cbn in H.
+  destruct (go_hash x) as [h|] eqn:E; [|discriminate]. destruct (map_opt go_hash t) as [pt|] eqn:Et; [|discriminate].
+  constructor; [unfold hashable; rewrite E; reflexivity|eapply IH; reflexivity].
+Qed.
+
+(* a documented value that Go can hash is a well-formed key *)
+Lemma wt_hashable_nf : forall cfg k, wt cfg k = true -> hashable k = true -> nf_key k = true.
+Proof.
+  intros cfg. induction k using val_ind'; intros W Hh; cbn [wt] in W; cbn [nf_key]; try reflexivity; try exact W;
+    try discriminate W; try (unfold hashable in Hh; cbn [go_hash] in Hh; discriminate Hh).
+  - unfold hashable in Hh. cbn [go_hash] in Hh. destruct (map_opt go_hash l) as [ps|] eqn:E; [|discriminate].
+    pose proof (map_opt_hash_all l ps E) as A. apply forallb_forall. intros x Hx.
+    rewrite Forall_forall in H, A. rewrite forallb_forall in W. apply H; [exact Hx|apply W; exact Hx|apply A; exact Hx].
+  - unfold hashable in Hh. cbn [go_hash] in Hh. destruct (map_opt go_hash l) as [ps|] eqn:E; [|discriminate].
+    pose proof (map_opt_hash_all l ps E) as A. apply forallb_forall. intros x Hx.
+    rewrite Forall_forall in H, A. rewrite forallb_forall in W. apply H; [exact Hx|apply W; exact Hx|apply A; exact Hx].
+  - apply IHk; [exact W|]. unfold hashable in *. cbn [go_hash] in Hh. destruct (go_hash k); [reflexivity|discriminate].
+Qed.
+
 Lemma try_assign_ok : forall cfg h m k v h',
   Forall (fun io => obj_ok cfg (snd io)) h -> wt cfg k = true -> wt cfg v = true ->
   try_assign h m k v = Some h' -> Forall (fun io => obj_ok cfg (snd io)) h'.
@@ -187,12 +211,18 @@ Proof.
   destruct m; try discriminate.
   - destruct (heap_get h id) as [[es|es]|] eqn:G; try discriminate.
     destruct (go_unhashable k); [discriminate|]. inversion T; subst.
-    apply heap_set_ok; [exact H|]. cbn. apply gomap_assign_ok; try assumption.
-    exact (heap_get_ok cfg h id (HMap es) H G).
+    destruct (heap_get_ok cfg h id (HMap es) H G) as [Oe Ok].
+    apply heap_set_ok; [exact H|]. split; cbn.
+    + apply gomap_assign_ok; assumption.
+    + apply gomap_assign_distinct. exact Ok.
   - destruct (heap_get h id) as [[es|es]|] eqn:G; try discriminate.
     destruct (dict_set choose_first k v es) as [es'|] eqn:D; [|discriminate]. inversion T; subst.
-    apply heap_set_ok; [exact H|]. cbn.
-    apply (dict_set_ok cfg choose_first k v es es' (heap_get_ok cfg h id (HDict es) H G) Hk Hv D).
+    destruct (heap_get_ok cfg h id (HDict es) H G) as [Oe [On Od]].
+    apply heap_set_ok; [exact H|]. split; cbn.
+    + apply (dict_set_ok cfg choose_first k v es es' Oe Hk Hv D).
+    + assert (Hh : hashable k = true).
+      { unfold dict_set, dict_del in D. destruct (hashable k); [reflexivity|discriminate]. }
+      apply (dict_set_keys choose_first k v es es' (wt_hashable_nf cfg k Hk Hh) On Od D).
 Qed.
 
 Lemma assign_pairs_ok_n : forall cfg n items h m h' b, (length items <= n)%nat ->
@@ -344,8 +374,10 @@ Section Handlers.
   Proof.
     intros st m st' H N. unfold new_dict_obj in N. cbn in N.
     destruct (c_pydict cfg) eqn:P; inversion N; subst; split; cbn; try (rewrite P; reflexivity).
-    - apply ok_set_heap; [apply (ok_fresh _ _ H)|]. apply heap_set_ok; [apply (so_heap _ _ H)|constructor].
-    - apply ok_set_heap; [apply (ok_fresh _ _ H)|]. apply heap_set_ok; [apply (so_heap _ _ H)|constructor].
+    - apply ok_set_heap; [apply (ok_fresh _ _ H)|]. apply heap_set_ok; [apply (so_heap _ _ H)|].
+      split; [constructor|]. split; [constructor|exact I].
+    - apply ok_set_heap; [apply (ok_fresh _ _ H)|]. apply heap_set_ok; [apply (so_heap _ _ H)|].
+      split; [constructor|exact I].
   Qed.
 End Handlers.
 
@@ -429,6 +461,7 @@ Section HandlerOK.
       try (apply push_bytestring_ok; exact H);
       try (apply memo_top_ok; exact H).
     all: try solve [prep; sok].
+    all: try solve [apply ok_push_wt; [exact H|]; cbn [wt]; first [eapply wfb_parse_float; eassumption | apply wfb_be_decode8; assumption]].
     - (* INT *) apply ok_push_wt; [exact H|]. cbn. eapply parse_int64_range; eassumption.
     - (* BININT1 *) apply ok_push_wt; [exact H|]. cbn. apply in_int64_small. pose proof (b2N_lt b). lia.
     - (* BININT2 *) apply ok_push_wt; [exact H|]. cbn. apply in_int64_small. apply le_decode_2. assumption.
